@@ -908,15 +908,17 @@ func AdoptSession(p Persistence, c *Config) (client *Client, warn []error, fatal
 		return storeOrderPerKey[publishReleaseKeys[i]] < storeOrderPerKey[publishReleaseKeys[j]]
 	})
 	// ensure continuous sequence
-	publishAtLeastOnceKeys = cleanSequence(publishAtLeastOnceKeys, "PUBLISH at-least-once", &warn)
-	publishExactlyOnceKeys = cleanSequence(publishExactlyOnceKeys, "PUBLISH exactly-once", &warn)
-	publishReleaseKeys = cleanSequence(publishReleaseKeys, "PUBREL", &warn)
+	publishAtLeastOnceKeys = cleanSequence(p, publishAtLeastOnceKeys, "PUBLISH at-least-once", &warn)
+	publishExactlyOnceKeys = cleanSequence(p, publishExactlyOnceKeys, "PUBLISH exactly-once", &warn)
+	publishReleaseKeys = cleanSequence(p, publishReleaseKeys, "PUBREL", &warn)
+	store := p // p gets shadowed next
 	if len(publishExactlyOnceKeys) != 0 && len(publishReleaseKeys) != 0 {
 		n := publishExactlyOnceKeys[0] & publishIDMask
 		p := publishReleaseKeys[len(publishReleaseKeys)-1] & publishIDMask
 		if n-p != 1 && !(n == 0 && p == publishIDMask) {
 			warn = append(warn, fmt.Errorf("mqtt: PUBREL %#x–%#x dropped ☠️ due gap until PUBLISH %#x",
 				publishReleaseKeys[0], publishReleaseKeys[len(publishReleaseKeys)-1], publishExactlyOnceKeys[0]))
+			deleteDropped(store, publishReleaseKeys, &warn)
 			publishReleaseKeys = nil
 		}
 	}
@@ -1013,7 +1015,7 @@ func AdoptSession(p Persistence, c *Config) (client *Client, warn []error, fatal
 	return client, warn, nil
 }
 
-func cleanSequence(keys []uint, name string, warn *[]error) []uint {
+func cleanSequence(store Persistence, keys []uint, name string, warn *[]error) []uint {
 	for i := 1; i < len(keys); i++ {
 		n := keys[i] & publishIDMask
 		p := keys[i-1] & publishIDMask
@@ -1022,9 +1024,21 @@ func cleanSequence(keys []uint, name string, warn *[]error) []uint {
 		}
 
 		*warn = append(*warn, fmt.Errorf("mqtt: %s %#x–%#x dropped ☠️ due gap until %#x", name, keys[0], keys[i-1], keys[i]))
+		deleteDropped(store, keys[:i], warn)
 
 		keys = keys[i:]
 		i = 0
 	}
 	return keys
+}
+
+// DeleteDropped removes abandoned records, such that they can't interfere
+// with a follow-up AdoptSession.
+func deleteDropped(p Persistence, keys []uint, warn *[]error) {
+	for _, key := range keys {
+		err := p.Delete(key)
+		if err != nil {
+			*warn = append(*warn, fmt.Errorf("mqtt: dropped record %#x not deleted: %w", key, err))
+		}
+	}
 }
